@@ -53,7 +53,10 @@ def run_job(job):
     except respgen.NotRenderable as exc:
         return {"label": label, "defects": defects, "variant": variant,
                 "skipped": str(exc)}
-    obs, detail = respgen.run_call(op, resp, rng)
+    # the recursive parser needs seconds of CPU for a very deep document;
+    # that is not a hang
+    limit = 90.0 if any(d["k"] == "v_deep" for d in defects) else 20.0
+    obs, detail = respgen.run_call(op, resp, rng, limit=limit)
     return {"label": label, "defects": defects, "variant": variant,
             "obs": obs, "detail": detail}
 
@@ -137,8 +140,17 @@ def every_op(d):
     """Child shapes of the response element whose NAME collides with a
     sibling element are driven on every operation of the shape in the quick
     tier too (every operation family unpacks the response itself)."""
+    if d["k"] == "o_het":
+        return het_like(d)
     return d["k"] == "o_pv" and d["ty"] in ("IRETURNVALUE", "RETURNVALUE",
                                             "ERROR")
+
+
+def het_like(d):
+    """Heterogeneous result list of LIKE elements (instance- and class-level
+    content of a polymorphic element): passes the parser's like-elements
+    check and reaches the operation (RespPipelineImplOps!HetParsed)."""
+    return d["ty"].split("/")[0] == d["cls"].split("/")[0]
 
 
 def obs_name(o):
@@ -160,6 +172,9 @@ def where_of(rec, op):
         # a value taken from a PARAMVALUE child that was mistaken for the
         # return element is a different defect than an unchecked element
         return op.shape + "/o_pv"
+    if any(d["k"] == "o_het" for d in rec["defects"]):
+        # objects after the first one returned unchecked
+        return op.shape + "/o_het"
     return op.shape
 
 
@@ -306,13 +321,14 @@ def run(ctx):
     # quick: all pinned leaks together + the two leaks found by the latest
     # extension of the response universe, each alone; thorough: every leak
     # alone
-    leaks = ["RealBigInt", "ParamNamedElem"]
+    leaks = ["FirstObjectOnly", "QrcBeforeParams"]
     if not quick:
         leaks = ["ErrCodeInt", "IntInf", "NullInArray", "ArraySizeInt",
                  "CimvalueRaw", "RetvalParamtypeKey", "PullEmptyResponse",
                  "EnumInstNoPath", "ResultIndexing", "PullNoTypeCheck",
                  "ExpatEncoding", "RedirectUrl", "Recursion", "MethodMisc",
-                 "EmbTypes", "RealBigInt", "HexLongMsg", "ParamNamedElem"]
+                 "EmbTypes", "RealBigInt", "HexLongMsg", "ParamNamedElem",
+                 "FirstObjectOnly", "QrcBeforeParams", "TypeNameTrail"]
         ctx.tlc("RespPipelineImpl", "RespPipelineImplWide.cfg",
                 label="guarded pipeline refines the requirement, wide pairs",
                 timeout=1700)
@@ -355,6 +371,11 @@ def run(ctx):
         if not labs:
             continue
         generic = stage[defs[0]["k"]] in GENERIC_STAGES or every_op(defs[0])
+        if quick and defs[0]["k"] == "o_het" and not generic and \
+                rng.random() >= 0.25:
+            # unlike elements: all rejected at one place (list_of_same);
+            # quick drives a quarter of them, thorough all
+            continue
         if quick and not generic:
             labs = [rng.choice(labs)]
         elif quick and defs[0]["k"] in ("e_env", "w_form", "s_err"):
